@@ -19,11 +19,13 @@ theorem c06_check_run_ok_of_codec (p : Profile) (t : Rbgp.Term) (c : Case) (h : 
   exact PropsC06.check_run_ok p c g hg.wf
 
 /-- C15 (partial): the reference checker accepts the model run of every case the codec accepts that
-    lies outside the recorded open finding (`Case.PlainLimits`). -/
+    is short (< 2^63 steps) and lies outside the residual open finding (`Case.OneSession`: a limited
+    session is the only source of its peer address). -/
 theorem c15_check_run_ok_partial_of_codec (p : Profile) (t : Rbgp.Term) (c : Case)
-    (h : Codec.caseOf? t = some c) (hp : c.PlainLimits) : SpecC15.check c (observe p c) = .ok := by
+    (h : Codec.caseOf? t = some c) (hsh : c.Short) (hone : c.OneSession) :
+    SpecC15.check c (observe p c) = .ok := by
   obtain ⟨g, hg⟩ := caseOf?_good h
-  exact PropsC15.check_run_ok_partial p c g hg.wf hp
+  exact PropsC15.check_run_ok_partial p c g hg.wf (caseOf?_purgeCtrOk h) hsh hone
 
 end Rbgp.Rib.PropsCodec
 
